@@ -445,6 +445,61 @@ def rule_only_writes(ctx, rep):
             )
 
 
+SPAWNERS = {"subprocess.run", "subprocess.call", "subprocess.check_call", "subprocess.check_output", "subprocess.Popen", "os.system", "os.popen",
+            "os.execv", "os.execve", "os.execvp", "os.spawnv", "os.spawnl", "os.startfile", "subprocess.getoutput", "subprocess.getstatusoutput"}
+
+
+def _command_head(ctx, fn: FuncInfo, call: ast.Call) -> list[str]:
+    """Leading constant words of the command a spawn call runs (list literal, possibly built up in a local)."""
+    arg = call.args[0] if call.args else next((k.value for k in call.keywords if k.arg == "args"), None)
+    arg = ctx.resolver(fn).expand(arg) if isinstance(arg, ast.Name) else arg
+    words = []
+    if isinstance(arg, (ast.List, ast.Tuple)):
+        for e in arg.elts:
+            if isinstance(e, ast.Constant) and isinstance(e.value, str):
+                words.append(e.value)
+            else:
+                break
+    elif isinstance(arg, ast.Constant) and isinstance(arg.value, str):
+        words = arg.value.split()
+    return words
+
+
+def rule_no_foreign_process(ctx, rep):
+    rep.rule(
+        "R-NO-FOREIGN-PROCESS",
+        "a child process started on the way from codemodder.run can write wherever it likes, so each spawn reachable from run() is either "
+        "executed only under DRY=false or is the one confirmed read-only tool invocation (`semgrep scan ... --output <temporary file>`); "
+        "anything else pointed at the project (e.g. `git status`, which refreshes .git/index) may modify the tree during a dry run",
+        min_instances=1,
+    )
+    reach = ctx.cg.reachable([RUN])
+    gs = GuardSummary(ctx, reach)
+    n = 0
+    for q in sorted(reach):
+        fn = ctx.prog.functions[q]
+        r = ctx.resolver(fn)
+        for c in walk_no_nested(fn.node):
+            if not isinstance(c, ast.Call):
+                continue
+            cq = r.callee_qname(c) if isinstance(c.func, (ast.Name, ast.Attribute)) else None
+            if cq not in SPAWNERS:
+                continue
+            n += 1
+            head = _command_head(ctx, fn, c)
+            ex = None
+            if head[:2] == ["semgrep", "scan"]:
+                ex = "semgrep scan: reads its targets, writes only the --output file (a NamedTemporaryFile)"
+            fa = ctx.flow(fn)
+            local = fa.reachable(c) and dry_fact(fa.must_at(c), r) is False
+            ok = bool(ex) or local or not fa.reachable(c) or gs.guarded(fn.qname)
+            rep.check("R-NO-FOREIGN-PROCESS", fn.qname, fn.loc(c), ok, f"spawn:{' '.join(head[:2]) or unparse(c.func)}",
+                      f"`{unparse(c)[:80]}` starts `{' '.join(head[:3]) or 'a process'}` also when dry_run is set: what that program writes under the target "
+                      "directory is outside every dry-run guard", exempt=ex)
+    if n < 1:
+        raise AnalysisError("no process spawn reachable from run() (the semgrep invocation was confirmed by hand)")
+
+
 def check(ctx, rep):
     rep.explanation = (
         "Whole-program static analysis: call graph from codemodder.run (libcst hook dispatch included) -> every "
@@ -456,6 +511,7 @@ def check(ctx, rep):
     rule_thread(ctx, rep)
     rule_flag_stored(ctx, rep)
     rule_only_writes(ctx, rep)
+    rule_no_foreign_process(ctx, rep)
     rep.not_covered += [
         "equality of dry and real reports beyond 'the flag influences nothing but writes' (I/O failures during the real write)",
     ]
